@@ -6,6 +6,8 @@ import GV.Model.HeaderSym
   that belongs to C37/C38).
   op:  hdr <c|t> <useed> <slot> <blockNo> <spk> <maxEvo> <ocPeriod> <kesT> <seq> <ctx> <tamper>
   out: lead=<b> ser=<b> valid=<b> errs=<check names> lkes=<1|0|e> lopc=<b>
+  op:  blk <c|t> <useed> <slot> <spk> <ocPeriod> <kesT> <tamper… | seg <i> | flip <off> <bit>>
+  out: lead=<b> dec=<b> vb=<1|0:kind>            (flip: lead=<b> vb=<b>)
 -/
 namespace GV.Drv.C40
 open GV.Line GV.Model.Header GV.Model.HeaderSym
@@ -17,99 +19,190 @@ def errStr : Err → String
 
 def tampers : List String := ["none", "blockNo", "slot", "prevHash", "issuer", "vrfKey", "vrfProof",
   "vrfOut", "nonceProof", "nonceOut", "bodySize", "bodyHash", "ocHot", "ocSeq", "ocPeriod", "ocSig",
-  "protoMajor", "protoMinor", "kesSig", "kesSigOtherKey", "kesSigOtherT"]
+  "protoMajor", "protoMinor", "kesSig", "kesSigOtherKey", "kesSigOtherT",
+  "vrfProofLen", "vrfOutLen", "vrfKeyLen", "kesSigLen", "ocHotLen", "issuerLen", "ocSigLen",
+  "nonceProofLen", "nonceOutLen"]
+def tpraosOnly : List String := ["nonceProof", "nonceOut", "nonceProofLen", "nonceOutLen"]
 def ctxs : List String := ["ok", "prevslot", "prevslot+", "blockno", "nohash", "badhash", "reg", "regbad"]
+
+structure Built where
+  P : Prims T
+  f : Fields T
+  sig : T
+
+/-- build on the symbolic universe: vrf keys 10/11, kes keys 20/21, cold keys 30/31 -/
+def buildSym (lead tp : Bool) (slot blockNo ocPeriod kesT seq bodySize : Nat) (proto : Nat × Nat)
+    (bodyHash : T) : Option Built :=
+  let hot := T.kpk 20
+  let bld : Builder T :=
+    { tpraos := tp, vrfSk := T.atom 10, kesSk := T.atom 20, kesT := kesT, ocHot := hot,
+      ocSeq := seq, ocPeriod := ocPeriod,
+      ocSig := T.esg 30 (T.signable hot seq ocPeriod), issuer := T.epk 30 }
+  let bin : BuildIn T :=
+    { slot, blockNo, prevHash := T.atom 1, nonce := T.atom 7, poolStake := 1000000000,
+      totalStake := 1000000000, bodyHash := bodyHash, bodySize := bodySize, protoMajor := proto.1,
+      protoMinor := proto.2 }
+  let genuineOut := T.vout 10 (T.inp tp slot 7 false)
+  -- first pass fixes the numbering of serialised bodies, second pass is the model run
+  let f0 : Option (Fields T) :=
+    match build (sym lead genuineOut none) bld bin with
+    | .ok (f, _) => some f | .error _ => none
+  let P := sym lead genuineOut f0
+  match build P bld bin with
+  | .error _ => none
+  | .ok (f, sig) => some { P, f, sig }
+
+/-- one field replaced by another genuine value of the same size, or cut by one byte -/
+def tamperFields (tp : Bool) (slot seq ocPeriod : Nat) (f : Fields T) (tamper : String) : Fields T :=
+  let hot := T.kpk 20
+  let other := T.inp tp (slot + 1) 7 false
+  let otherEta := T.inp tp (slot + 1) 7 true
+  match tamper with
+  | "blockNo" => { f with blockNo := f.blockNo + 1 }
+  | "slot" => { f with slot := f.slot + 1 }
+  | "prevHash" => { f with prevHash := T.atom 2 }
+  | "issuer" => { f with issuer := T.epk 31 }
+  | "vrfKey" => { f with vrfKey := T.vpk 11 }
+  | "vrfProof" => { f with vrfProof := T.vproof 10 other }
+  | "vrfOut" => { f with vrfOut := T.vout 10 other }
+  | "nonceProof" => { f with nonceProof := some (T.vproof 10 otherEta) }
+  | "nonceOut" => { f with nonceOut := some (T.vout 10 otherEta) }
+  | "bodySize" => { f with bodySize := f.bodySize + 1 }
+  | "bodyHash" => { f with bodyHash := T.atom 4 }
+  | "ocHot" => { f with ocHot := T.kpk 21 }
+  | "ocSeq" => { f with ocSeq := (f.ocSeq + 1) % 2 ^ 32 }
+  | "ocPeriod" => { f with ocPeriod := (f.ocPeriod + 1) % 2 ^ 32 }
+  | "ocSig" => { f with ocSig := T.esg 31 (T.signable hot seq ocPeriod) }
+  | "protoMajor" => { f with protoMajor := f.protoMajor + 1 }
+  | "protoMinor" => { f with protoMinor := f.protoMinor + 1 }
+  | "vrfProofLen" => { f with vrfProof := T.trunc f.vrfProof }
+  | "vrfOutLen" => { f with vrfOut := T.trunc f.vrfOut }
+  | "vrfKeyLen" => { f with vrfKey := T.trunc f.vrfKey }
+  | "ocHotLen" => { f with ocHot := T.trunc f.ocHot }
+  | "issuerLen" => { f with issuer := T.trunc f.issuer }
+  | "ocSigLen" => { f with ocSig := T.trunc f.ocSig }
+  | "nonceProofLen" => { f with nonceProof := f.nonceProof.map T.trunc }
+  | "nonceOutLen" => { f with nonceOut := f.nonceOut.map T.trunc }
+  | _ => f
+
+def tamperSig (P : Prims T) (tp : Bool) (kesT : Nat) (f : Fields T) (sig : T) (tamper : String) : T :=
+  match tamper with
+  | "kesSig" => T.ksg 99 0 (T.atom 0)   -- a 448-byte string that is nobody's signature
+  | "kesSigOtherKey" => T.ksg 21 kesT (P.ser tp f)
+  | "kesSigOtherT" => T.ksg 20 ((kesT + 1) % 64) (P.ser tp f)
+  | "kesSigLen" => T.trunc sig
+  | _ => sig
+
+def handleHdr (impl : String) (toks : List String) : Out :=
+  match toks with
+  | [md, _useed, slot, blockNo, spk, maxEvo, ocPeriod, kesT, seq, ctx, tamper] =>
+    match parseNat? slot, parseNat? blockNo, parseNat? spk, parseNat? maxEvo, parseNat? ocPeriod,
+          parseNat? kesT, parseNat? seq with
+    | some slot, some blockNo, some spk, some maxEvo, some ocPeriod, some kesT, some seq =>
+      if (md ≠ "c" ∧ md ≠ "t") ∨ kesT > 63 ∨ slot = 0 ∨ slot ≥ 2 ^ 62 ∨ blockNo = 0 ∨
+         blockNo ≥ 2 ^ 64 ∨ spk ≥ 2 ^ 64 ∨ maxEvo ≥ 2 ^ 64 ∨ ocPeriod ≥ 2 ^ 32 ∨ seq ≥ 2 ^ 32 ∨
+         !tampers.contains tamper ∨ !ctxs.contains ctx ∨
+         (md = "c" ∧ tpraosOnly.contains tamper) then badOp else
+      let tp := md == "t"
+      let lead := impl.startsWith "lead=1"
+      if impl.startsWith "lead=0" then { model := "lead=0 notleader", spec := "*" } else
+      match buildSym lead tp slot blockNo ocPeriod kesT seq 1234 (9, 1) (T.atom 3) with
+      | none => { model := "lead=0 notleader", spec := "*" }
+      | some ⟨P, f, sig⟩ =>
+        let f' := tamperFields tp slot seq ocPeriod f tamper
+        let sig' := tamperSig P tp kesT f sig tamper
+        let vin : VIn T :=
+          { f := f', kesSig := sig', bodyCbor := P.ser tp f',
+            prevSlot := (match ctx with | "prevslot" => slot | "prevslot+" => slot + 5 | _ => slot - 1),
+            prevBlockNo := (if ctx = "blockno" then blockNo else blockNo - 1),
+            prevHeaderHash := (match ctx with
+              | "nohash" => none | "badhash" => some (T.atom 5) | _ => some (T.atom 1)),
+            nonce := T.atom 7, poolStake := 1000000000, totalStake := 1000000000,
+            registeredVrfKeyHash := (match ctx with
+              | "reg" => some (T.h (T.vpk 10)) | "regbad" => some (T.h (T.vpk 11)) | _ => none) }
+        let cfg : Cfg := { tpraos := tp, slotsPerKESPeriod := spk, maxKESEvolutions := maxEvo }
+        let errs := validate P cfg vin
+        let es := if errs.isEmpty then "-" else ",".intercalate (errs.map errStr)
+        let lk := match ledgerKes P vin spk with
+          | none => "e" | some true => "1" | some false => "0"
+        let lo := boolStr (ledgerOpCert P vin)
+        let model := s!"lead=1 ser=1 valid={boolStr errs.isEmpty} errs={es} lkes={lk} lopc={lo}"
+        -- the property's demand, from the op alone
+        let cur := if spk = 0 then 0 else slot / spk
+        let inWindow := spk ≠ 0 ∧ cur ≥ ocPeriod ∧ cur - ocPeriod < maxEvo
+        let signerAtSlot := spk ≠ 0 ∧ cur ≥ ocPeriod ∧ cur - ocPeriod = kesT
+        -- `kesSigOtherT` substitutes the key's genuine signature of another evolution: that is
+        -- a tampering only when the builder's own signature was the right one for the slot
+        let tampered := tamper ≠ "none" ∧ (tamper ≠ "kesSigOtherT" ∨ signerAtSlot)
+        let spec :=
+          if ¬ inWindow then "lead=1 ser=1 valid=0 *"
+          else if tampered then "lead=1 ser=1 valid=0 *"
+          else if tamper ≠ "none" then "*"
+          else if signerAtSlot ∧ (ctx = "ok" ∨ ctx = "reg") then "lead=1 ser=1 valid=1 *"
+          else "*"
+        { model := model, spec := spec }
+    | _, _, _, _, _, _, _ => badOp
+  | _ => badOp
+
+def handleBlk (impl : String) (toks : List String) : Out :=
+  match toks with
+  | md :: _useed :: slot :: spk :: ocPeriod :: kesT :: tam =>
+    match parseNat? slot, parseNat? spk, parseNat? ocPeriod, parseNat? kesT with
+    | some slot, some spk, some ocPeriod, some kesT =>
+      if (md ≠ "c" ∧ md ≠ "t") ∨ kesT > 63 ∨ slot = 0 ∨ slot ≥ 2 ^ 62 ∨ spk = 0 ∨ spk ≥ 2 ^ 64 ∨
+         ocPeriod ≥ 2 ^ 32 then badOp else
+      let tp := md == "t"
+      -- tamper kind
+      let kind : Option (String × Nat) := match tam with
+        | ["seg", i] => (parseNat? i).bind fun i => if i > 3 ∨ (tp ∧ i > 2) then none else some ("seg", i)
+        | ["flip", o, b] => match parseNat? o, parseNat? b with
+          | some _, some b => if b > 7 then none else some ("flip", 0)
+          | _, _ => none
+        | [t] => if tampers.contains t ∧ ¬ (md = "c" ∧ tpraosOnly.contains t) then some (t, 0) else none
+        | _ => none
+      match kind with
+      | none => badOp
+      | some (tamper, _) =>
+        let lead := impl.startsWith "lead=1"
+        if impl.startsWith "lead=0" then { model := "lead=0 notleader", spec := "*" } else
+        let nseg := if tp then 3 else 4
+        match buildSym lead tp slot 77 ocPeriod kesT 3 nseg (if tp then 2 else 8, 0) (T.segs 0) with
+        | none => { model := "lead=0 notleader", spec := "*" }
+        | some ⟨P, f, sig⟩ =>
+          if tamper = "flip" then
+            -- every byte of the block is signed (header body), is the signature, is hashed (body
+            -- segments) or is framing: no single-bit change is accepted
+            { model := "lead=1 vb=0", spec := "lead=1 vb=0" }
+          else
+          let f' := tamperFields tp slot 3 ocPeriod f tamper
+          let sig' := tamperSig P tp kesT f sig tamper
+          let segHash := if tamper = "seg" then T.segs 1 else T.segs 0
+          let vin : VIn T :=
+            { f := f', kesSig := sig', bodyCbor := P.ser tp f', prevSlot := 0, prevBlockNo := 0,
+              prevHeaderHash := none, nonce := T.atom 7, poolStake := 1000000000,
+              totalStake := 1000000000, registeredVrfKeyHash := none }
+          -- decoding with body-hash validation on compares the header's hash with the segments
+          let dec := f'.bodyHash == segHash
+          let vb := match verifyBlock P vin tp spk segHash with
+            | .ok _ => "1" | .error .vrf => "0:vrf" | .error .kes => "0:kes"
+            | .error .bodyHash => "0:bodyhash"
+          let cur := slot / spk
+          let signerAtSlot := cur ≥ ocPeriod ∧ cur - ocPeriod = kesT
+          let tampered := tamper ≠ "none" ∧ (tamper ≠ "kesSigOtherT" ∨ signerAtSlot)
+          let spec :=
+            if tampered then "lead=1 dec=0 vb=0*||lead=1 dec=1 vb=0*"
+            else if tamper = "none" ∧ signerAtSlot then "lead=1 dec=1 vb=1"
+            else "*"
+          { model := s!"lead=1 dec={boolStr dec} vb={vb}", spec := spec }
+    | _, _, _, _ => badOp
+  | _ => badOp
 
 def handle (line : String) : Out :=
   match line.splitOn "\t" with
   | [op, impl] =>
     match tokens op with
-    | ["hdr", md, _useed, slot, blockNo, spk, maxEvo, ocPeriod, kesT, seq, ctx, tamper] =>
-      match parseNat? slot, parseNat? blockNo, parseNat? spk, parseNat? maxEvo, parseNat? ocPeriod,
-            parseNat? kesT, parseNat? seq with
-      | some slot, some blockNo, some spk, some maxEvo, some ocPeriod, some kesT, some seq =>
-        if (md ≠ "c" ∧ md ≠ "t") ∨ kesT > 63 ∨ slot = 0 ∨ slot ≥ 2 ^ 62 ∨ blockNo = 0 ∨
-           blockNo ≥ 2 ^ 64 ∨ spk ≥ 2 ^ 64 ∨ maxEvo ≥ 2 ^ 64 ∨ ocPeriod ≥ 2 ^ 32 ∨ seq ≥ 2 ^ 32 ∨
-           !tampers.contains tamper ∨ !ctxs.contains ctx ∨
-           (md = "c" ∧ (tamper = "nonceProof" ∨ tamper = "nonceOut")) then badOp else
-        let tp := md == "t"
-        let lead := impl.startsWith "lead=1"
-        if impl.startsWith "lead=0" then { model := "lead=0 notleader", spec := "*" } else
-        -- symbolic universe: vrf keys 10/11, kes keys 20/21, cold keys 30/31
-        let hot := T.kpk 20
-        let bld : Builder T :=
-          { tpraos := tp, vrfSk := T.atom 10, kesSk := T.atom 20, kesT := kesT, ocHot := hot,
-            ocSeq := seq, ocPeriod := ocPeriod,
-            ocSig := T.esg 30 (T.signable hot seq ocPeriod), issuer := T.epk 30 }
-        let bin : BuildIn T :=
-          { slot, blockNo, prevHash := T.atom 1, nonce := T.atom 7, poolStake := 1000000000,
-            totalStake := 1000000000, bodyHash := T.atom 3, bodySize := 1234, protoMajor := 9,
-            protoMinor := 1 }
-        let genuineOut := T.vout 10 (T.inp tp slot 7 false)
-        -- first pass fixes the numbering of serialised bodies, second pass is the model run
-        let f0 : Option (Fields T) :=
-          match build (sym lead genuineOut none) bld bin with
-          | .ok (f, _) => some f | .error _ => none
-        let P := sym lead genuineOut f0
-        match build P bld bin with
-        | .error _ => { model := "lead=0 notleader", spec := "*" }
-        | .ok (f, sig) =>
-          let other := T.inp tp (slot + 1) 7 false
-          let otherEta := T.inp tp (slot + 1) 7 true
-          let f' : Fields T := match tamper with
-            | "blockNo" => { f with blockNo := f.blockNo + 1 }
-            | "slot" => { f with slot := f.slot + 1 }
-            | "prevHash" => { f with prevHash := T.atom 2 }
-            | "issuer" => { f with issuer := T.epk 31 }
-            | "vrfKey" => { f with vrfKey := T.vpk 11 }
-            | "vrfProof" => { f with vrfProof := T.vproof 10 other }
-            | "vrfOut" => { f with vrfOut := T.vout 10 other }
-            | "nonceProof" => { f with nonceProof := some (T.vproof 10 otherEta) }
-            | "nonceOut" => { f with nonceOut := some (T.vout 10 otherEta) }
-            | "bodySize" => { f with bodySize := f.bodySize + 1 }
-            | "bodyHash" => { f with bodyHash := T.atom 4 }
-            | "ocHot" => { f with ocHot := T.kpk 21 }
-            | "ocSeq" => { f with ocSeq := (f.ocSeq + 1) % 2 ^ 32 }
-            | "ocPeriod" => { f with ocPeriod := (f.ocPeriod + 1) % 2 ^ 32 }
-            | "ocSig" => { f with ocSig := T.esg 31 (T.signable hot seq ocPeriod) }
-            | "protoMajor" => { f with protoMajor := f.protoMajor + 1 }
-            | "protoMinor" => { f with protoMinor := f.protoMinor + 1 }
-            | _ => f
-          let sig' : T := match tamper with
-            | "kesSig" => T.atom 99
-            | "kesSigOtherKey" => T.ksg 21 kesT (P.ser tp f)
-            | "kesSigOtherT" => T.ksg 20 ((kesT + 1) % 64) (P.ser tp f)
-            | _ => sig
-          let vin : VIn T :=
-            { f := f', kesSig := sig', bodyCbor := P.ser tp f',
-              prevSlot := (match ctx with | "prevslot" => slot | "prevslot+" => slot + 5 | _ => slot - 1),
-              prevBlockNo := (if ctx = "blockno" then blockNo else blockNo - 1),
-              prevHeaderHash := (match ctx with
-                | "nohash" => none | "badhash" => some (T.atom 5) | _ => some (T.atom 1)),
-              nonce := T.atom 7, poolStake := 1000000000, totalStake := 1000000000,
-              registeredVrfKeyHash := (match ctx with
-                | "reg" => some (T.h (T.vpk 10)) | "regbad" => some (T.h (T.vpk 11)) | _ => none) }
-          let cfg : Cfg := { tpraos := tp, slotsPerKESPeriod := spk, maxKESEvolutions := maxEvo }
-          let errs := validate P cfg vin
-          let es := if errs.isEmpty then "-" else ",".intercalate (errs.map errStr)
-          let lk := match ledgerKes P vin spk with
-            | none => "e" | some true => "1" | some false => "0"
-          let model := s!"lead=1 ser=1 valid={boolStr errs.isEmpty} errs={es} lkes={lk} lopc={boolStr (ledgerOpCert P vin)}"
-          -- the property's demand, from the op alone
-          let cur := if spk = 0 then 0 else slot / spk
-          let inWindow := spk ≠ 0 ∧ cur ≥ ocPeriod ∧ cur - ocPeriod < maxEvo
-          let signerAtSlot := spk ≠ 0 ∧ cur ≥ ocPeriod ∧ cur - ocPeriod = kesT
-          -- `kesSigOtherT` substitutes the key's genuine signature of another evolution: that is
-          -- a tampering only when the builder's own signature was the right one for the slot
-          let tampered := tamper ≠ "none" ∧ (tamper ≠ "kesSigOtherT" ∨ signerAtSlot)
-          let spec :=
-            if ¬ inWindow then "lead=1 ser=1 valid=0 *"
-            else if tampered then "lead=1 ser=1 valid=0 *"
-            else if tamper ≠ "none" then "*"
-            else if signerAtSlot ∧ (ctx = "ok" ∨ ctx = "reg") then "lead=1 ser=1 valid=1 *"
-            else "*"
-          { model := model, spec := spec }
-      | _, _, _, _, _, _, _ => badOp
+    | "hdr" :: rest => handleHdr impl rest
+    | "blk" :: rest => handleBlk impl rest
     | _ => badOp
   | _ => badOp
 
